@@ -24,7 +24,7 @@ def run(ctx: Ctx) -> None:
                 "Links.tla, sampled and mapped by random similarities; non-trivial = all (origins and directions are never "
                 "axis-aligned after the similarity); distinct by instance")
     consts = {"FrameIdx": "{2}" if ctx.tier == "quick" else "{1, 2, 3}", "OriginIdx": "{2}" if ctx.tier == "quick" else "{2, 3}", "CoordIdx": "1"}
-    res = run_tlc("Links", "links.cfg", cfg_text=cfg_text("Spec", consts, ["QuarterOK", "MirrorOK"], constraints=["Emit"]), workers=1, timeout=1200)
+    res = run_tlc("Links", "links.cfg", cfg_text=cfg_text("Spec", consts, ["QuarterOK", "MirrorOK", "History"], constraints=["Emit"]), workers=1, timeout=1200)
     ctx.add_tlc(res)
     insts = res.records
     if len(insts) < 100:
@@ -43,12 +43,13 @@ def evaluate(ctx: Ctx, inst: dict, rng: random.Random) -> None:
     import numpy as np
 
     point, vector, scale = similarity(rng)
-    P = {k: point(inst[k]) for k in ("origin", "l0", "f0", "lrot", "frot", "ltrans", "ftrans", "fsym", "foot_line", "foot_plane")}
+    P = {k: point(inst[k]) for k in ("origin", "l0", "f0", "lrot", "frot", "ltrans", "ftrans", "fsym", "foot_line", "foot_plane",
+                                          "lrot2", "frot2", "ltrans2", "ftrans2", "fsym2")}
     u, v, w = (vector(inst["frame"][k]) for k in ("u", "v", "w"))
     flen = inst["frame"]["len"]
     size = scale * flen
     tol = 1e-5 * size
-    rep = {"instance": {k: inst[k] for k in ("origin", "l0", "f0", "k")}, "scale": scale}
+    rep = {"instance": {k: inst[k] for k in ("origin", "l0", "f0", "k", "k2")}, "scale": scale}
 
     def bad(sig, what):
         ctx.violation(sig, what, rep)
@@ -61,29 +62,37 @@ def evaluate(ctx: Ctx, inst: dict, rng: random.Random) -> None:
             return None
 
     # ------------------------------------------------------------------ links
-    def link_case(name, make, new_leader, want_follower):
+    def link_case(name, make, moves):
+        """moves: (leader position, exact follower position) one after the other on the same link, the way the
+        optimizer uses it; each update is repeated once (nothing may change) and the last move returns the leader"""
         link = guarded(name, make)
-        ctx.evaluated(f"{name}:{inst['l0']}:{inst['f0']}:{inst['k']}")
+        ctx.evaluated(f"{name}:{inst['l0']}:{inst['f0']}:{inst['k']}:{inst['k2']}")
         if link is None:
             return
-        assigned = np.array(new_leader, dtype=float)
-        link.leader = assigned.copy()
+        for n, (new_leader, want_follower) in enumerate(moves):
+            tag = "" if n == 0 else (":second-move" if n == 1 else ":moved-back")
+            assigned = np.array(new_leader, dtype=float)
+            for again in ("", ":repeated"):
+                link.leader = assigned.copy()
 
-        def upd():
-            link.update()
-            return True
-        if guarded(f"{name}.update", upd) is None:
-            return
-        if vdist(link.follower, want_follower) > tol:
-            bad(f"{name}:follower", f"follower is {vdist(link.follower, want_follower) / size:.3g} sizes away from the exact position")
-        if vdist(link.leader, assigned) > 1e-12 * max(1.0, vnorm(assigned)):
-            bad(f"{name}:leader-altered", f"update() moved the leader by {vdist(link.leader, assigned) / size:.3g} sizes")
+                def upd():
+                    link.update()
+                    return True
+                if guarded(f"{name}.update", upd) is None:
+                    return
+                if vdist(link.follower, want_follower) > tol:
+                    bad(f"{name}:follower{tag}{again}", f"follower is {vdist(link.follower, want_follower) / size:.3g} sizes away from the exact position")
+                if vdist(link.leader, assigned) > 1e-12 * max(1.0, vnorm(assigned)):
+                    bad(f"{name}:leader-altered{tag}{again}", f"update() moved the leader by {vdist(link.leader, assigned) / size:.3g} sizes")
 
-    link_case("TranslationLink", lambda: cb.TranslationLink(P["l0"], P["f0"]), P["ltrans"], P["ftrans"])
+    link_case("TranslationLink", lambda: cb.TranslationLink(P["l0"], P["f0"]),
+              [(P["ltrans"], P["ftrans"]), (P["ltrans2"], P["ftrans2"]), (P["l0"], P["f0"])])
     axis = vmul(w, rng.uniform(0.4, 3.0))
-    link_case("RotationLink", lambda: cb.RotationLink(P["l0"], P["f0"], axis, P["origin"]), P["lrot"], P["frot"])
+    link_case("RotationLink", lambda: cb.RotationLink(P["l0"], P["f0"], axis, P["origin"]),
+              [(P["lrot"], P["frot"]), (P["lrot2"], P["frot2"]), (P["l0"], P["f0"])])
     normal = vmul(u, rng.uniform(0.4, 3.0))
-    link_case("SymmetryLink", lambda: cb.SymmetryLink(P["l0"], P["f0"], normal, P["origin"]), P["lrot"], P["fsym"])
+    link_case("SymmetryLink", lambda: cb.SymmetryLink(P["l0"], P["f0"], normal, P["origin"]),
+              [(P["lrot"], P["fsym"]), (P["lrot2"], P["fsym2"])])
 
     # ------------------------------------------------------------------ clamps
     uu = vmul(u, 1.0 / vnorm(u))
@@ -152,7 +161,8 @@ def evaluate(ctx: Ctx, inst: dict, rng: random.Random) -> None:
     clamp = guarded("ParametricSurfaceClamp", lambda: cb.ParametricSurfaceClamp(spos, surf, [[-4 * scale, 4 * scale], [-4 * scale, 4 * scale]]))
     ctx.evaluated()
     if clamp is not None:
-        if vdist(clamp.position, spos) > 1e-4 * size:
+        # two-parameter scipy minimisation from [0, 0] with tol 1e-7: accurate to about 1e-3 of the size
+        if vdist(clamp.position, spos) > 1e-2 * size:
             bad("ParametricSurfaceClamp:initial", f"initial position {vdist(clamp.position, spos) / size:.3g} sizes from the surface point it was created at")
         prm = [rng.uniform(-3, 3) * scale, rng.uniform(-3, 3) * scale]
         clamp.update_params(prm)
